@@ -237,17 +237,35 @@ func (m *Model) RunErrLine(s *Sink, rule string) {
 	// evaluator.newError: node.Line() and ctx.AbsPath
 	ene := m.Method("evaluator", "Evaluator", "newError")
 	if ene != nil {
+		// every fail.New of the evaluator package (in newError or in a helper it delegates to): the line is some
+		// node's Line(), followed through the parameters of the helpers; the path is the context's
 		ok := false
-		for _, b := range ene.Blocks {
-			for _, in := range b.Instrs {
-				if c, isC := in.(*ssa.Call); isC && c.Call.StaticCallee() != nil && canonFnName(c.Call.StaticCallee()) == "New" && len(c.Call.Args) > 1 {
-					lc, isL := c.Call.Args[0].(*ssa.Call)
-					if isL && lc.Call.IsInvoke() && lc.Call.Method.Name() == "Line" && lc.Call.Value == ssa.Value(ene.Params[1]) && strings.HasSuffix(fieldPathOf(c.Call.Args[1]), ".ctx.AbsPath") {
-						ok = true
+		nNew, allGood := 0, true
+		for _, fn := range m.ModFns {
+			if fn.Blocks == nil || shortPkg(fnPkgPath(fn)) != "evaluator" {
+				continue
+			}
+			for _, b := range fn.Blocks {
+				for _, in := range b.Instrs {
+					c, isC := in.(*ssa.Call)
+					if !isC || c.Call.StaticCallee() == nil || canonFnName(c.Call.StaticCallee()) != "New" || shortPkg(fnPkgPath(c.Call.StaticCallee())) != "fail" || len(c.Call.Args) < 2 {
+						continue
+					}
+					nNew++
+					good := strings.HasSuffix(fieldPathOf(c.Call.Args[1]), ".ctx.AbsPath")
+					for _, lv := range m.resolveUp(c.Call.Args[0], nil, 0) {
+						lc, isL := lv.(*ssa.Call)
+						if !isL || !lc.Call.IsInvoke() || lc.Call.Method.Name() != "Line" {
+							good = false
+						}
+					}
+					if !good {
+						allGood = false
 					}
 				}
 			}
 		}
+		ok = nNew > 0 && allGood
 		if ok {
 			s.OK(rule, fnKey(ene)+"|line and path", m.Pos(ene.Pos()), "fail.New(node.Line(), e.ctx.AbsPath, ...)")
 		} else {
@@ -319,7 +337,9 @@ func (m *Model) RunErrLine(s *Sink, rule string) {
 			s.Violation(rule, fnKey(st)+"|each render gets its own evaluator and context", m.Pos(st.Pos()), "the evaluator (or its context) used by String is not created in the call from the page's own path (e.g. cached on the Template): errors of later renders name the file of an earlier one")
 		}
 	}
-	pp := m.PkgFuncOr("textwire", "parseProgram", func(f *ssa.Function) bool { return callsNamed(f, "ParseProgram", "parser.Parser") && len(f.Params) == 1 })
+	pp := m.PkgFuncOr("textwire", "parseProgram", func(f *ssa.Function) bool {
+		return callsNamed(f, "ParseProgram", "parser.Parser") && len(f.Params) == 1
+	})
 	if pp != nil {
 		ok := false
 		m.walkInlined(pp, 2, func(in ssa.Instruction, resolve func(ssa.Value) ssa.Value, _ int) {
@@ -384,6 +404,12 @@ func tokenSource(m *Model, v ssa.Value, d int) bool {
 		return true
 	}
 	switch x := v.(type) {
+	case *ssa.Const:
+		// the zero token (`token.Token{}` handed to a constructor): the same as a node built without a Token, which
+		// this clause does not judge either
+		if _, isStruct := x.Type().Underlying().(*types.Struct); isStruct && x.Value == nil {
+			return true
+		}
 	case *ssa.Parameter:
 		// a token handed down by the callers: every call site passes the parser's token (or a copy of it)
 		rs := m.resolveUp(x, nil, 0)
@@ -406,6 +432,25 @@ func tokenSource(m *Model, v ssa.Value, d int) bool {
 	case *ssa.UnOp:
 		// load of a local that was assigned from the token
 		if al, ok := x.X.(*ssa.Alloc); ok {
+			// a zero token (`token.Token{}` handed to a constructor): the same as a node built without a Token,
+			// which this clause does not judge either
+			written := false
+			for _, r := range *al.Referrers() {
+				switch y := r.(type) {
+				case *ssa.Store:
+					if y.Addr == ssa.Value(al) {
+						written = true
+					}
+				case *ssa.FieldAddr:
+					written = true
+				case *ssa.UnOp, *ssa.DebugRef:
+				default:
+					written = true
+				}
+			}
+			if !written {
+				return true
+			}
 			for _, r := range *al.Referrers() {
 				if st, ok := r.(*ssa.Store); ok && st.Addr == ssa.Value(al) && tokenSource(m, st.Val, d+1) {
 					return true
